@@ -343,3 +343,93 @@ class UpdateCSR(EFMethod):
         ln = LoopSpec(inv=self._inv_n)
         ln.defs = lambda cx, cxb: [models.unfold_sumscaled(cx.arr('this._csrspectrum'), cxb.v('n') * cx.f('this._nmax', 'u64'), cx.rf('this._axis_freq._delta'), I(0))]
         return {'n#0': ln, 'i#0': li}
+
+
+# =========================================================================== U15 (scale factors of the constructors)
+class ElectricFieldScale(Contract):
+    """the wake scaling factor of the delegating constructor and its division by the transform length (C05/C06):
+    Ib*dt*c/(sigma_z*dE_cell)/N with sigma_z = scale("Meter") of the position axis and dE_cell = delta_p*sigma_delta*E0.
+    Checked on the initialiser expressions of the two real constructors, evaluated symbolically."""
+    name = 'vfps::ElectricField::ElectricField'
+    tu = 'src/PS/ElectricField.cpp'
+    tags = {'C05', 'C06', 'C10'}
+
+    def custom_verify(self, scratch, tc):
+        from vf.vcg import Exec
+        from vf.state import State
+        from vf.unit import bind_param, _walk
+        from vf.ast import params, ctor_inits
+        tu = tc.get(self.tu)
+        ctors = tu.funcs.get('vfps::ElectricField::ElectricField', [])
+        main8 = [f for f in ctors if len(params(f)) == 8]
+        deleg = [f for f in ctors if len(params(f)) == 11]
+        if len(main8) != 1 or len(deleg) != 1:
+            raise ExtractionError(f'ElectricField constructors: found {len(main8)} with 8 and {len(deleg)} with 11 parameters')
+        out = []
+        # ---- 8-parameter constructor: _wakescaling(wakescalining/_nmax), volts
+        ex = Exec(tu, main8[0], 'ElectricField::ElectricField')
+        ex.default_tags = set(self.tags)
+        st = State()
+        args = {}
+        for i, p in enumerate(params(main8[0])):
+            nm, v = bind_param(ex, st, p, i)
+            args[nm] = v
+        ex.args0 = args
+        ex.entry = st.copy()
+        inits = {i_['anyInit']['name']: i_ for i_ in ctor_inits(main8[0]) if 'anyInit' in i_}
+        for need in ('_wakescaling', '_nmax', 'volts'):
+            if need not in inits:
+                raise ExtractionError(f'ElectricField constructor: member initialiser {need} not found')
+        imp = args['impedance']
+        nmax = ex.ev(inits['_nmax']['inner'][0], st)
+        st.scal['this._nmax'] = IntV(nmax.t, parse_type_str('unsigned long'))
+        nfreq = st.scal.get(imp.name + '._nfreqs')
+        ex.oblig(st, 'nmax_is_impedance_length', nmax.t == (nfreq.t if nfreq is not None else -1), 'postcondition', {'C06', 'C17'})
+        st.assume(nmax.t > 0)
+        ws = ex.ev(inits['_wakescaling']['inner'][0], st)
+        ex.oblig(st, 'wakescaling_divided_by_transform_length', ws.t * z3.ToReal(nmax.t) == args['wakescalining'].t, 'postcondition', {'C05', 'C06'})
+        ps = args['ps']
+        vol = ex.ev(inits['volts']['inner'][0], st)
+        d1 = st.scal.get(ps.name + '._axis[1]._delta')
+        sev = st.scal.get(ps.name + '._axis[1]._scale[ElectronVolt]')
+        st.assume(args['revolutionpart'].t != 0)
+        ex.oblig(st, 'volts_factor', vol.t * args['revolutionpart'].t == (d1.t * sev.t if d1 is not None and sev is not None else -1), 'postcondition', {'C10'})
+        ex.oblig(st, 'canary', z3.BoolVal(False), 'canary', set())
+        # ---- delegating constructor: the scale argument handed to the 8-parameter one
+        ex2 = Exec(tu, deleg[0], 'ElectricField::ElectricField(delegating)')
+        ex2.default_tags = set(self.tags)
+        st2 = State()
+        a2 = {}
+        for i, p in enumerate(params(deleg[0])):
+            nm, v = bind_param(ex2, st2, p, i)
+            a2[nm] = v
+        ex2.args0 = a2
+        ex2.entry = st2.copy()
+        di = [i_ for i_ in ctor_inits(deleg[0]) if 'delegatingInit' in i_ or 'baseInit' in i_]
+        if len(di) != 1:
+            raise ExtractionError('ElectricField delegating constructor: delegating initialiser not found')
+        ce = di[0]['inner'][0]
+        while ce['kind'] in ('ExprWithCleanups', 'CXXBindTemporaryExpr', 'MaterializeTemporaryExpr'):
+            ce = ce['inner'][0]
+        cargs = ce.get('inner', [])
+        if len(cargs) != 8:
+            raise ExtractionError(f'ElectricField delegating constructor forwards {len(cargs)} arguments, expected 8')
+        scale = ex2.ev(cargs[7], st2)
+        ps2 = a2['ps']
+        sm_ = st2.scal.get(ps2.name + '._axis[0]._scale[Meter]')
+        dl1 = st2.scal.get(ps2.name + '._axis[1]._delta')
+        if sm_ is None or dl1 is None:
+            raise ExtractionError('ElectricField delegating constructor: scale expression does not read scale("Meter") of axis 0 and delta of axis 1')
+        st2.assume(z3.And(sm_.t > 0, dl1.t > 0, a2['sigma_delta'].t > 0, a2['E0'].t > 0))
+        cc = models.CONST_GLOBALS['vfps::physcons::c']
+        want = a2['Ib'].t * a2['dt'].t * Rq(cc.numerator, cc.denominator) / sm_.t / (dl1.t * a2['sigma_delta'].t * a2['E0'].t)
+        ex2.oblig(st2, 'wake_scale_formula', scale.t == want, 'postcondition', {'C05', 'C06', 'C10'},
+                  'Ib*dt*c/(sigma_z*dE_cell): sigma_z = scale(Meter) of the position axis, dE_cell = delta_p*sigma_delta*E0')
+        rp_forwarded = ex2.ev(cargs[6], st2)
+        ex2.oblig(st2, 'revolutionpart_forwarded', rp_forwarded.t == a2['revolutionpart'].t, 'postcondition', {'C05', 'C10'})
+        sp_forwarded = ex2.ev(cargs[3], st2)
+        ex2.oblig(st2, 'spacing_forwarded', sp_forwarded.t == a2['spacing_bins'].t, 'postcondition', {'C06'})
+        ex2.oblig(st2, 'canary', z3.BoolVal(False), 'canary', set())
+        info = {'unit': self.name, 'file': self.tu + ' + inc/PS/ElectricField.hpp', 'sha': tu.sha, 'cases': 1, 'lines': [None, None], 'extract_s': 0,
+                'note': 'initialiser expressions of both constructors evaluated symbolically; buffer allocation and FFT plan binding are not covered'}
+        return [ex, ex2], info
